@@ -485,6 +485,12 @@ fn c06_client(case: &Case) {
                 s.shutdown(Shutdown::Write).ok();
             }
         }
+        // after a FIN (clean or in mid-frame) the peer keeps its half of the socket open too:
+        // end-of-stream alone must fail the calls
+        if matches!(kill, Kill::Close | Kill::Partial(_)) {
+            kill_at.store(simkernel::now_ns(), std::sync::atomic::Ordering::SeqCst);
+            thread::sleep(Duration::from_millis(600_000));
+        }
         drainer.join().ok();
     });
 
@@ -538,7 +544,7 @@ fn c06_client(case: &Case) {
     let killed = kill_at_main.load(std::sync::atomic::Ordering::SeqCst);
     if killed > 0 {
         for (t, _, at) in &res {
-            if !case.check(*at <= killed + 120_000_000_000, "hang", || format!("call {t}, in flight when the malformed header arrived at t={killed}ns, returned only at t={at}ns")) {
+            if !case.check(*at <= killed + 120_000_000_000, "hang", || format!("call {t}, in flight when the connection failed ({kill:?}) at t={killed}ns, returned only at t={at}ns")) {
                 return;
             }
         }
